@@ -932,6 +932,9 @@ func (x *Run) enterLoopHeader(fr *Frame, from, to *ssa.BasicBlock, st *State, lp
 		var hv []Val
 		for _, hf := range ann.Heads {
 			ha := &LoopAnn{Inv: hf, Args: ann.BodyArgs}
+			if ann.HeadArgs != nil {
+				ha.Args = ann.HeadArgs
+			}
 			if args, ok := x.loopInvArgs(fr, st, ha); ok {
 				rt := hf.Signature.Results().At(0).Type()
 				t := x.evalPure(fr, st, hf, args, nil)
